@@ -773,4 +773,146 @@ theorem C06_adopt_after_batches (s : St) (db : DB) (g : GDir) (n : Nat) (gm vis 
       (NoPend (Engine.logOf g) → NoPend (Engine.logOf (gm ++ MergeP.hi g n))) ∧ db'.activeId = db.activeId :=
   restart_adopt cfg' hdb hinv hmo hF hcfg
 
+/-! ## non-vacuity: an executed history for which every side condition is PROVED
+
+`open "d"` (file-size limit 120: a rotation every second or third record) · plain writes · a batch
+with an intermediate flush, read-your-writes and a delete · a call through the dead batch · `Merge`
+· a batch AFTER the merge that reuses the first batch's id (same-millisecond snowflake ids), again
+with intermediate flushes · plain writes · the ADOPTING restart under another configuration ·
+reads · a second restart under a third configuration · a `Merge` of the adopted directory · a third
+restart. -/
+
+def kb (s : String) : ByteArray := s.toUTF8
+def cfg0 : Cfg := { fileSize := 120, sync := 0, bps := 0, idx := 0, io := 0, shards := 1 }
+def cfg1 : Cfg := { fileSize := 64, sync := 1, bps := 0, idx := 2, io := 1, shards := 16 }
+def cfg2 : Cfg := { fileSize := 4096, sync := 2, bps := 100, idx := 1, io := 0, shards := 4 }
+
+def demoH : List HOp :=
+  [.a (.put (kb "a") (kb "1")), .a (.put (kb "b") (kb "2")), .a (.put (kb "a") (kb "3")),
+   .a (.bnew true 11), .a (.bput (kb "c") (kb "4")), .a (.bget (kb "a")), .a (.bdel (kb "b")),
+   .a (.bput (kb "d") (kb "5")), .a (.bput (kb "e") (kb "6")), .a (.bget (kb "b")), .a .bcommit,
+   .a (.bput (kb "z") (kb "9")), .a (.get (kb "b")),
+   .merge [1, 0, 2],
+   .a (.get (kb "c")),
+   .a (.bnew false 11), .a (.bput (kb "a") (kb "7")), .a (.bdel (kb "c")), .a (.bput (kb "f") (kb "8")),
+   .a (.bput (kb "g") (kb "8")), .a (.bget (kb "a")), .a .bcommit, .a .bdrop,
+   .a (.put (kb "h") (kb "9")), .a (.del (kb "d")),
+   .restart cfg1,
+   .a (.get (kb "a")), .a (.get (kb "b")), .a (.get (kb "c")), .a (.get (kb "d")), .a (.get (kb "e")),
+   .a (.get (kb "f")), .a (.get (kb "h")),
+   .restart cfg2,
+   .a (.get (kb "a")), .a (.get (kb "f")), .a (.bget (kb "a")), .merge [], .restart cfg0, .a (.get (kb "a"))]
+
+instance : DecidablePred HOpOK := fun op => by
+  cases op with
+  | a op => cases op <;> (simp only [HOpOK]; infer_instance)
+  | merge order => simp only [HOpOK]; infer_instance
+  | restart cfg => simp only [HOpOK]; infer_instance
+
+instance : DecidablePred HOpSmall := fun op => by
+  cases op with
+  | a op => cases op <;> (simp only [HOpSmall]; infer_instance)
+  | merge order => simp only [HOpSmall]; infer_instance
+  | restart cfg => simp only [HOpSmall]; infer_instance
+
+theorem demo_ok : ∀ op ∈ demoH, HOpOK op ∧ HOpSmall op := by decide
+theorem demo_wf : WF false demoH = true := by decide
+theorem demo_len : 2 * demoH.length + 1 < 2 ^ 32 := by decide
+theorem demo_cost : totalCost demoH < 2 ^ 32 := by decide
+
+/-- all hypotheses of `C01_refines_history_small` — hence of `C01_refines_history` — hold for the
+    concrete history -/
+theorem demo_refines :
+    RunOK "d" (openDB St.init "d" cfg0).1 demoH ∧ (openDB St.init "d" cfg0).2 = .ok ∧
+    Holds (specRun ⟨specEmpty, .none⟩ demoH).2 (hrun "d" (openDB St.init "d" cfg0).1 demoH).2 ∧
+    Agree (hrun "d" (openDB St.init "d" cfg0).1 demoH).1 (specRun ⟨specEmpty, .none⟩ demoH).1 :=
+  C01_refines_history_small "d" cfg0 (by decide) demoH demo_ok demo_wf demo_len demo_cost
+
+/-! ### evaluated (compiled evaluation by `#guard`; not used by any proof) -/
+
+private def showRes : Res → String
+  | .ok => "ok"
+  | .val v => s!"val:{v.data.toList}"
+  | .notFound => "nf"
+  | .err e => "err:" ++ e
+
+private def checkRes : Expect → Res → Bool
+  | .is r, r' => showRes r == showRes r'
+  | .mergeOutcome, r' => match r' with
+    | .ok => true
+    | .err _ => true
+    | _ => false
+
+private def nFiles (s : St) (dir : String) : Option (List Nat) := (s.world.get dir).map (fun d => d.data.map (·.1))
+private def demoRun (n : Nat) : St := (hrun "d" (openDB St.init "d" cfg0).1 (demoH.take n)).1
+
+-- the results, call by call (43 results for 40 calls: a restart is two calls)
+#guard (hrun "d" (openDB St.init "d" cfg0).1 demoH).2.map showRes
+  = ["ok", "ok", "ok",
+     "ok", "ok", "val:[51]", "ok", "ok", "ok", "nf", "ok", "err:committed", "nf",
+     "ok",
+     "val:[52]",
+     "ok", "ok", "ok", "ok", "ok", "val:[55]", "ok", "ok",
+     "ok", "ok",
+     "ok", "ok",
+     "val:[55]", "nf", "nf", "nf", "val:[54]", "val:[56]", "val:[57]",
+     "ok", "ok",
+     "val:[55]", "val:[56]", "err:no-batch", "ok", "ok", "ok", "val:[55]"]
+-- … are what the specification prescribes
+#guard (List.zipWith checkRes (specRun ⟨specEmpty, .none⟩ demoH).2 (hrun "d" (openDB St.init "d" cfg0).1 demoH).2).all id
+#guard (specRun ⟨specEmpty, .none⟩ demoH).2.length = (hrun "d" (openDB St.init "d" cfg0).1 demoH).2.length
+-- both merges succeeded
+#guard (match (hstep "d" (demoRun 13) (.merge [1, 0, 2])).2 with | [.ok] => true | _ => false)
+-- the first `Merge` rotates to file 5 (= the marker id); its output is one file
+#guard nFiles (demoRun 14) "d" == some [0, 1, 2, 3, 4, 5]
+#guard nFiles (demoRun 14) "d-merge" == some [0]
+-- the batch after the merge flushed on its way: files 5 … 8 exist before the adopting restart
+#guard nFiles (demoRun 25) "d" == some [0, 1, 2, 3, 4, 5, 6, 7, 8]
+#guard nFiles (demoRun 25) "d-merge" == some [0]
+-- the adopting restart: merged file 0 + the files ≥ 5; the merge directory is gone
+#guard nFiles (demoRun 26) "d" == some [0, 5, 6, 7, 8]
+#guard nFiles (demoRun 26) "d-merge" == none
+-- the final mapping is the specification's
+#guard ["a", "b", "c", "d", "e", "f", "g", "h", "z"].all fun k =>
+  (absOf (hrun "d" (openDB St.init "d" cfg0).1 demoH).1 (kb k)).map (·.data.toList)
+    == ((specRun ⟨specEmpty, .none⟩ demoH).1.m (kb k)).map (·.data.toList)
+#guard (["a", "b", "c", "d", "e", "f", "g", "h", "z"].map fun k =>
+  (absOf (hrun "d" (openDB St.init "d" cfg0).1 demoH).1 (kb k)).map (·.data.toList))
+    == [some [55], none, none, none, some [54], some [56], some [56], some [57], none]
+
+/-! ### the excluded points, run on the model (evaluated; for the report)
+
+**E1 — a plain call while a batch is live** (`WF` violated).  Go: the call blocks on `db.mu` until
+`Commit`.  The model does not represent blocking and simply executes it: the plain `Put` is written
+at once, the batch's staged `Put` of the same key is applied at `Commit` and wins.
+
+**E2 — a batch object dropped uncommitted after an intermediate flush** (`WF` violated: `bdrop`
+while live).  Go: the DB lock is never released, every later call blocks for ever.  The model
+continues: the flushed part of the batch is visible in the live index (`x ↦ 1`), the staged part is
+not (`u`); after a restart the flushed records are orphans without a sealing record and `x` is gone
+— and when a LATER batch with the SAME id commits, its sealing record adopts the orphans: after the
+next restart `x ↦ 1` is back.  (This is the hazard behind the id-freshness hypothesis of C03 / C04;
+it needs an unsealed batch in the log, i.e. a crash — or this unreachable drop.  In crash-free
+well-formed histories ids may repeat freely: `demoH` uses 11 twice.) -/
+
+private def e1 : List HOp :=
+  [.a (.bnew false 5), .a (.bput (kb "a") (kb "1")), .a (.put (kb "a") (kb "2")), .a (.get (kb "a")), .a .bcommit,
+   .a (.get (kb "a")), .restart cfg0, .a (.get (kb "a"))]
+#guard WF false e1 == false
+#guard (hrun "d" (openDB St.init "d" cfg0).1 e1).2.map showRes
+  = ["ok", "ok", "ok", "val:[50]", "ok", "val:[49]", "ok", "ok", "val:[49]"]
+
+private def e2 : List HOp :=
+  [.a (.put (kb "a") (kb "0")), .a (.bnew false 5), .a (.bput (kb "x") (kb "1")), .a (.bput (kb "y") (kb "2")),
+   .a (.bput (kb "z") (kb "3")), .a (.bput (kb "u") (kb "4")), .a .bdrop,
+   .a (.get (kb "x")), .a (.get (kb "u")), .restart cfg0, .a (.get (kb "x")), .a (.get (kb "a")),
+   .a (.bnew false 5), .a (.bput (kb "w") (kb "9")), .a .bcommit, .a .bdrop, .a (.get (kb "x")),
+   .restart cfg0, .a (.get (kb "x")), .a (.get (kb "w"))]
+#guard WF false e2 == false
+#guard (hrun "d" (openDB St.init "d" cfg0).1 e2).2.map showRes
+  = ["ok", "ok", "ok", "ok", "ok", "ok", "ok",
+     "val:[49]", "nf", "ok", "ok", "nf", "val:[48]",
+     "ok", "ok", "ok", "ok", "nf",
+     "ok", "ok", "val:[49]", "val:[57]"]
+
 end XixiKV.C01H
